@@ -1,5 +1,7 @@
 import Dcg.Proofs.Sort
 import Dcg.Proofs.SortPost
+import Dcg.Proofs.Repoint
+import Dcg.Proofs.RepointLive
 /-
 C11 — no model is lost or duplicated, eager dependencies are defined first, ordering terminates.
 Only property theorems live here; helper lemmas are in Dcg/Proofs/Sort.lean.
@@ -341,5 +343,103 @@ theorem stale_footer_incomplete :
       [(0, false), (1, true)] ∧
     emitFooterStale [⟨(0, false), 7, none⟩, ⟨(1, false), 7, none⟩, ⟨(2, false), 8, none⟩] [(0, false), (1, false)] =
       [(0, false)] := by decide
+
+/-! ### folding a duplicate into its twin: every user is re-pointed
+
+`Parser.__delete_duplicate_models` (a `$ref`-only definition with the class name of its target; a
+definition with the class name and the rendering of an earlier one) and `Parser.__reuse_model`
+(an Enum with the rendering of an earlier model) drop a model and walk over the children of its
+reference: `for child in dup.children[:]: if p(child): child.replace_reference(target)`.
+If a user were left behind, the module would still name a class that is no longer written. -/
+section Repoint
+open Dcg.Model.Repoint Dcg.Proofs.Repoint
+
+/-- the objects registered as children of the duplicate's reference do refer to it (that is how
+`DataType.__init__` and `replace_reference` register a user) -/
+abbrev ChildrenRefer (s : Store) (dup : Ref) : Prop := ∀ u ∈ s.kids dup, s.refOf u = some dup
+
+/-- The pass never raises (`replace_reference` raises only for a caller without reference). -/
+theorem repoint_returns (p : User → Bool) (dup target : Ref) (s : Store) (hne : dup ≠ target)
+    (hwf : ChildrenRefer s dup) : ∃ s', repoint p dup target s = some s' := by
+  obtain ⟨s', h, _⟩ := repointList_spec p dup target hne (s.kids dup) s (fun u hu => Or.inl (hwf u hu))
+  exact ⟨s', h⟩
+
+/-- After the pass NO user that takes part still refers to the dropped duplicate, for any number
+of users: each of them refers to the twin, is registered with the twin, and is gone from the
+duplicate's children. (No hypothesis that the children are pairwise distinct.) -/
+theorem repoint_leaves_no_user (p : User → Bool) (dup target : Ref) (s s' : Store) (hne : dup ≠ target)
+    (hwf : ChildrenRefer s dup) (h : repoint p dup target s = some s') :
+    ∀ u ∈ s.kids dup, p u = true →
+      s'.refOf u = some target ∧ u ∉ s'.kids dup ∧ u ∈ s'.kids target := by
+  obtain ⟨s'', h', a, _⟩ := repointList_spec p dup target hne (s.kids dup) s (fun u hu => Or.inl (hwf u hu))
+  have : s'' = s' := Option.some.inj (h'.symm.trans h)
+  subst this
+  exact a
+
+/-- …and nothing else is touched: users that are not children of the duplicate, or do not take
+part, keep their reference; every other reference keeps its children. -/
+theorem repoint_touches_nothing_else (p : User → Bool) (dup target : Ref) (s s' : Store) (hne : dup ≠ target)
+    (hwf : ChildrenRefer s dup) (h : repoint p dup target s = some s') :
+    (∀ u, (u ∉ s.kids dup ∨ p u = false) → s'.refOf u = s.refOf u) ∧
+      (∀ r, r ≠ dup → r ≠ target → s'.kids r = s.kids r) := by
+  obtain ⟨s'', h', _, _, c, d⟩ := repointList_spec p dup target hne (s.kids dup) s (fun u hu => Or.inl (hwf u hu))
+  have : s'' = s' := Option.some.inj (h'.symm.trans h)
+  subst this
+  exact ⟨c, d⟩
+
+/-- No user is lost on the way: for pairwise distinct children the twin's children afterwards are
+its own followed by the users that took part, IN THEIR ORDER, and the duplicate keeps exactly the
+children that did not take part. -/
+theorem repoint_moves_users_in_order (p : User → Bool) (dup target : Ref) (s s' : Store) (hne : dup ≠ target)
+    (hwf : ChildrenRefer s dup) (hnd : (s.kids dup).Nodup) (h : repoint p dup target s = some s') :
+    s'.kids target = s.kids target ++ (s.kids dup).filter p ∧
+      s'.kids dup = (s.kids dup).filter (fun u => !p u) := by
+  obtain ⟨s'', h', a, b, _⟩ := repointList_exact p dup target hne (s.kids dup) s hnd hwf
+  have : s'' = s' := Option.some.inj (h'.symm.trans h)
+  subst this
+  refine ⟨b, ?_⟩
+  rw [a]
+  apply List.filter_congr
+  intro u hu
+  simp [hu]
+
+/-- non-vacuity: reference 1 (the duplicate) has the users 10, 11, 12 and the subclass 20 (a
+`DataModel`, which does not take part); reference 0 (the twin) has the user 5 -/
+example : (repoint (· < 20) 1 0 (Store.ofLists [(0, [5]), (1, [10, 20, 11, 12])]
+      [(5, some 0), (10, some 1), (11, some 1), (12, some 1), (20, some 1)])).map
+    (fun s => s.view [0, 1] [10, 11, 12]) =
+    some ([(0, [5, 10, 11, 12]), (1, [20])], [(10, some 0), (11, some 0), (12, some 0)]) := by decide
+
+/-- What must not be done (and why the loops walk over a COPY): walking the live list by position
+while `replace_reference` takes the caller out of that very list skips every second user — of
+three users the middle one still refers to the dropped duplicate. One user is not enough to see
+it. -/
+theorem live_walk_leaves_users_behind :
+    (repointLive (fun _ => true) 1 0 10 0 (Store.ofLists [(0, []), (1, [10, 11, 12])]
+      [(10, some 1), (11, some 1), (12, some 1)])).map (fun s => s.view [0, 1] [10, 11, 12]) =
+      some ([(0, [10, 12]), (1, [11])], [(10, some 0), (11, some 1), (12, some 0)]) ∧
+    (repointLive (fun _ => true) 1 0 10 0 (Store.ofLists [(0, []), (1, [10])] [(10, some 1)])).map
+      (fun s => s.view [0, 1] [10]) = some ([(0, [10]), (1, [])], [(10, some 0)]) :=
+  ⟨by decide, by decide⟩
+
+/-- The general fact behind these witnesses: for ANY number of pairwise distinct users that all take
+part, the live walk ends with exactly the users at the odd positions (`everySecond`) still registered
+with — and still referring to — the dropped duplicate. So from two users on the copy is needed. -/
+theorem live_walk_skips_every_second_user (dup target : Ref) (s : Store) (hne : dup ≠ target)
+    (hwf : ChildrenRefer s dup) (hnd : (s.kids dup).Nodup) :
+    ∃ s', repointLive (fun _ => true) dup target ((s.kids dup).length + 1) 0 s = some s' ∧
+      s'.kids dup = everySecond (s.kids dup) ∧ ∀ u ∈ everySecond (s.kids dup), s'.refOf u = some dup := by
+  obtain ⟨s', h, k, r, _⟩ := repointLive_skips dup target hne (s.kids dup) [] s ((s.kids dup).length + 1)
+    (Nat.lt_succ_self _) (by simp) (by simpa using hnd) hwf
+  exact ⟨s', by simpa using h, by simpa using k, r⟩
+
+example (a b : User) (r : List User) : everySecond (a :: b :: r) ≠ [] := by simp [everySecond]
+
+/-- six users: three are left behind -/
+example : (repointLive (fun _ => true) 1 0 10 0 (Store.ofLists [(0, []), (1, [10, 11, 12, 13, 14, 15])]
+      [(10, some 1), (11, some 1), (12, some 1), (13, some 1), (14, some 1), (15, some 1)])).map
+    (fun s => s.kids 1) = some [11, 13, 15] := by decide
+
+end Repoint
 
 end Dcg.Props.C11
